@@ -7,14 +7,14 @@ from scipy.sparse.linalg import aslinearoperator
 import pgmgen
 from common import ltok, qtok
 
-NAMES = ['a', 'b', 'c', 'd']
+NAMES = ['a', 'b', 'c', 'd', 'e']
 
 
-def gen_problem(rng, max_attrs=4, max_cells=200, allow_empty=False, min_size=2):
+def gen_problem(rng, max_attrs=4, max_cells=200, allow_empty=False, min_size=2, force_ring=False):
     while True:
-        k = rng.randint(2, max_attrs)
-        attrs = rng.sample(NAMES, k)
-        sizes = [rng.choice([min_size, 2, 3, 3, 4]) for _ in attrs]
+        k = rng.randint(2, max_attrs) if not force_ring else max_attrs
+        attrs = rng.sample(NAMES[:max(4, max_attrs)], k)
+        sizes = [rng.choice([min_size, 2, 3, 3, 4]) if k < 5 else 2 for _ in attrs]
         if math.prod(sizes) <= max_cells:
             break
     cfg = dict(zip(attrs, sizes))
@@ -25,7 +25,7 @@ def gen_problem(rng, max_attrs=4, max_cells=200, allow_empty=False, min_size=2):
     tot = sum(w)
     x = {c: N * wi / tot for c, wi in zip(cells, w)}
     nm = 0 if (allow_empty and rng.random() < 0.12) else rng.randint(1, 5)
-    shape_kind = rng.random()
+    shape_kind = rng.random() if not force_ring else 0.0
     projs = []
     if nm == 0:
         projs = []
@@ -67,7 +67,7 @@ def gen_problem(rng, max_attrs=4, max_cells=200, allow_empty=False, min_size=2):
         sigma = rng.choice([0.1, 0.5, 1.0, 1.0, 3.0, 10.0])
         y = Q @ mv + np.array([rng.gauss(0, sigma) for _ in range(Q.shape[0])])
         sp = rng.choice(['dense', 'sparse', 'operator', 'none'] if kind == 'identity' else ['dense', 'sparse', 'operator'])
-        ms.append(dict(proj=proj, Q=Q, y=y, sigma=sigma, kind=kind, spelling=sp))
+        ms.append(dict(proj=proj, Q=Q, y=y, sigma=sigma, kind=kind, spelling=sp, mv=mv))
     return dict(attrs=attrs, sizes=sizes, N=N, ms=ms)
 
 
